@@ -337,7 +337,7 @@ struct BufSys : World {
 				else if (nw >= 0 && !can_addref(nw)) { want = mpt::BadOperation; ++C.limit; ++C.refused; nontrivial = true; }
 				else { if (nw >= 0) retain(nw); so[s] = nw; if (old >= 0) { release(old); ++C.replaced; } want = old >= 0 ? (nw >= 0 ? 3 : 2) : (nw >= 0 ? 1 : 0); }
 				if (!check() || !slots_ok()) return false;
-				if (ret != want) return fail(want < 0 ? "accepted-at-limit" : "wrong-return", fmt("returned %d, documented result is %d", ret, want));
+				if (want < 0 ? ret >= 0 : ret != want) return fail(want < 0 ? "accepted-at-limit" : "wrong-return", fmt("returned %d, documented result is %d", ret, want));
 			}
 			break; }
 		case B_CLEAR: {
@@ -390,12 +390,14 @@ struct BufSys : World {
 			mpt::buffer *b = (mpt::buffer *) objs[o].ptr;
 			mpt::buffer *nb = LIB(b->detach(t ? 300 : 16));
 			if (!nb) { ++C.spurious; break; }
-			if (!shared) {
-				if (nb != b) { if (!t) return fail("wrong-target", "detach of an unshared buffer with sufficient size returned a different buffer");
-					objs[o].ptr = nb; objs[o].block = find_block(nb); }
+			if (nb == b) {}   // same instance: no reference moved
+			else if (!shared) {
+				// the only reference moved to a new block: the old block must be gone
+				const void *oldblk = objs[o].block;
+				objs[o].ptr = nb; objs[o].block = find_block(nb);
 				sl[s]._buf = nb;
+				if (ledger_is_live(oldblk)) return fail("leak", "the old block of a moved (unshared) buffer is still allocated");
 			} else {
-				if (nb == b) return fail("wrong-target", "detach of a shared buffer returned the shared instance");
 				release(o);
 				int n = newobj(nb);
 				sl[s]._buf = nb; so[s] = n;
@@ -501,7 +503,7 @@ struct MetaSys : World {
 			s += "] ";
 		}
 		for (size_t i = 0; i < defs.size(); ++i) s += defs[i].live ? fmt("d%zu=%d ", i, defs[i].ctx) : fmt("d%zu=- ", i);
-		if (cfg.refbuf) s += fmt("rb=%d,%d ", rbo[0], rbo[1]);
+		if (cfg.refbuf) s += fmt("rb=%d,%d nb=%d ", rbo[0], rbo[1], nbufs());
 		s += fmt("created=%d", created);
 		return s;
 	}
@@ -820,9 +822,9 @@ struct MetaSys : World {
 			mpt::buffer *ob = rb[s]._buf;
 			mpt::buffer *nb = LIB(ob->detach(ob->_used));
 			if (!nb) { ++C.spurious; break; }
-			if (!shared) { if (nb != ob) { objs[b].ptr = nb; objs[b].block = find_block(nb); } rb[s]._buf = nb; }
+			if (nb == ob) {}   // same instance: no reference moved
+			else if (!shared) { objs[b].ptr = nb; objs[b].block = find_block(nb); rb[s]._buf = nb; }
 			else {
-				if (nb == ob) return fail("wrong-target", "detach of a shared buffer returned the shared instance");
 				++C.shared_op; nontrivial = true;
 				int c = copy_refbuf(b, nb); release(b); rbo[s] = c; rb[s]._buf = nb;
 			}
@@ -1010,7 +1012,7 @@ static bool configure(const std::string &job, Tier tier)
 	std::vector<OpDef> &o = cfg.ops;
 	int S = cfg.nslots;
 	if (job == "buffer") {
-		cfg.depth = tier == Quick ? 6 : 14;
+		cfg.depth = tier == Quick ? 6 : 40;
 		add_ops(o, B_NEW, S, 0); add_ops(o, B_NEWHI, S, 0);
 		add_ops(o, B_CLONE, S, S); add_ops(o, B_CLEAR, S, 0); add_ops(o, B_CXXASSIGN, S, S);
 		add_ops(o, B_TINIT, S, S); add_ops(o, B_TFINI, S, 0);
@@ -1019,7 +1021,7 @@ static bool configure(const std::string &job, Tier tier)
 	}
 	if (job.compare(0, 5, "meta:")) return false;
 	std::string k = job.substr(5);
-	cfg.depth = tier == Quick ? 5 : 14;
+	cfg.depth = tier == Quick ? 5 : 40;
 	if (k == "counting") cfg.kinds = {K_CNT};
 	else if (k == "geninfo") cfg.kinds = {K_GENINFO, K_CNT};
 	else if (k == "metabuffer") cfg.kinds = {K_METABUF, K_CNT};
@@ -1028,11 +1030,10 @@ static bool configure(const std::string &job, Tier tier)
 	else if (k == "cxxtype") cfg.kinds = {K_CXX, K_CNT};
 	else if (k == "stream") cfg.kinds = {K_STREAM, K_CNT};
 	else if (k == "iobuffer") cfg.kinds = {K_IOBUF, K_CNT};
-	else if (k == "reply") { cfg.kinds = {K_REPLY}; cfg.reply = true; cfg.cxx = false; cfg.traits = false; }
+	else if (k == "reply") { cfg.kinds = {K_REPLY}; cfg.reply = true; cfg.cxx = false; cfg.traits = false; cfg.cap = 2; }
 	else if (k == "refarray") { cfg.kinds = {K_CNT, K_GENINFO}; cfg.refbuf = true; cfg.nslots = S = 2; cfg.cap = 2; cfg.rawcap = 1; cfg.cxx = false; cfg.traits = false; cfg.clone = false; cfg.conv = false; }
 	else if (k == "mixed") { cfg.kinds = {K_GENINFO, K_RAW, K_REPLY, K_CXX}; cfg.cxx = false; cfg.traits = false; cfg.clone = false; }
 	else return false;
-	if (getenv("C15_DEPTH")) cfg.depth = atoi(getenv("C15_DEPTH"));   // DEV-ONLY
 	for (int kind : cfg.kinds) { add_ops(o, M_NEW, S, 0, 0); for (size_t i = o.size() - S; i < o.size(); ++i) o[i].b = kind;
 		if (kpokeable(kind)) { add_ops(o, M_NEW, S, 0, 1); for (size_t i = o.size() - S; i < o.size(); ++i) o[i].b = kind; } }
 	if (cfg.conv) { add_ops(o, M_CONVREF, S, S); add_ops(o, M_CONVPTR, S, S); add_ops(o, M_CONVNULL, S, 0); }
@@ -1041,14 +1042,13 @@ static bool configure(const std::string &job, Tier tier)
 	if (cfg.traits) { add_ops(o, M_RINIT, S, S); add_ops(o, M_RFINI, S, 0); }
 	add_ops(o, M_ADDREF, S, 0); add_ops(o, M_UNREFRAW, 6, 0);
 	if (cfg.clone) add_ops(o, M_CLONE, S, S);
-	if (cfg.reply) { add_ops(o, M_ARM, S, 0); add_ops(o, M_DEFER, S, 0); add_ops(o, M_DREPLY, 4, 3); }
+	if (cfg.reply) { add_ops(o, M_ARM, S, 0); add_ops(o, M_DEFER, S, 0); add_ops(o, M_DREPLY, 2, 3); }
 	if (cfg.refbuf) { add_ops(o, M_RBPUT, S, 0); add_ops(o, M_RBCLONE, 2, 2); add_ops(o, M_RBCLEAR, 2, 0); add_ops(o, M_RBDETACH, 2, 0); add_ops(o, M_RFINI, S, 0); }
 	return true;
 }
 
 void mc_jobs(Tier t, std::vector<std::string> &jobs)
 {
-	if (getenv("C15_ONLY")) { jobs.push_back(getenv("C15_ONLY")); return; }   // DEV-ONLY
 	jobs.push_back("refcount");
 	jobs.push_back("buffer");
 	for (const char *k : {"counting", "geninfo", "metabuffer", "rawdata", "iobuffer", "generic", "cxxtype", "stream", "reply", "refarray", "mixed"}) jobs.push_back(std::string("meta:") + k);
@@ -1073,6 +1073,7 @@ void mc_explore(Run &r, const std::string &job)
 		return;
 	}
 	if (!configure(job, r.tier)) { r.incomplete("unknown job " + job); return; }
+	for (const char *k : {"held_reference_replaced", "at_counter_limit", "refused", "transitions_with_destroyed_object", "states_drained_to_quiescence", "op_on_shared_object", "clone_of_nonclonable"}) r.require(k);
 	if (job == "buffer") explore<BufSys>(r, cfg.depth); else explore<MetaSys>(r, cfg.depth);
 	flush_counters(r);
 }
